@@ -1445,6 +1445,234 @@ fn order_phase(drv: &mut Driver, loc: &mut Local, rng: &mut Rng) {
     loc.add("order_phase.points", 4 * pts.len() as u64);
 }
 
+
+// ---------------------------------------------------------------------------------------------
+// workbook stage: date-styled cells of every record kind, read from a file in either date system
+// ---------------------------------------------------------------------------------------------
+
+const XLSX_1904_SPELLINGS: [&str; 6] = ["1", "true", "&#49;", "&#x31;", "tru&#101;", "&#x74;rue"];
+const XLSX_1900_SPELLINGS: [&str; 6] = ["0", "false", "omit", "&#48;", "fals&#101;", "&#x30;"];
+const BOOK_FORMATS: [&str; 4] = ["date", "datetime", "elapsed", "custom"];
+
+/// desc: "book <xls|xlsb|xlsx> <1900|1904> <spelling index> <date|datetime|elapsed|custom> <bits>".
+/// One sheet holding the serial (and RK-representable neighbours of it) in a cell of EVERY numeric
+/// record kind of the format — xls NUMBER, RK, MULRK, FORMULA with a numeric cached result; xlsb
+/// BrtCellReal, BrtCellRk, BrtFmlaNum; xlsx `<c><v>` with and without `<f>` — all carrying a
+/// date / date-time / [h]:mm:ss / custom date format, in a workbook that declares the given date
+/// system (xlsx: in one of the legal spellings of the xsd:boolean attribute, character references
+/// included).  Every cell read back must be a date-time cell holding its serial and must convert
+/// like that serial in the WORKBOOK's date system (model: `cell dt <serial> <sys> <kind>`; oracle:
+/// the independent calendar).
+fn check_book(desc: &str, drv: &mut Driver, loc: &mut Local) {
+    use calamine::{Reader, Xls, Xlsb, Xlsx};
+    use std::io::Cursor;
+    use verif_harness::{xlsbw, xlsw, xlsxw};
+    let p: Vec<&str> = desc.split(' ').collect();
+    let (fmt, is_1904, sp, fk, v) = (p[1], p[2] == "1904", p[3].parse::<usize>().unwrap(), p[4], unbits(p[5]));
+    let (ifmt, custom): (u16, Option<&str>) = match fk {
+        "date" => (14, None),
+        "datetime" => (22, None),
+        "elapsed" => (46, None),
+        _ => (164, Some("yyyy\\-mm\\-dd\\ hh:mm:ss")),
+    };
+    let td = fk == "elapsed";
+    // RK-representable relatives of the serial
+    let day = (v.floor() as i64).clamp(-500_000_000, 500_000_000) as i32;
+    let centi = ((v * 100.0).round() as i64).clamp(-500_000_000, 500_000_000) as i32;
+    // (label, row, col, expected serial)
+    let mut cells: Vec<(&str, u32, u32, f64)> = vec![];
+    let bytes: Vec<u8> = match fmt {
+        "xls" => {
+            let mut b = xlsw::XlsBook::new();
+            b.date1904 = is_1904;
+            if let Some(c) = custom {
+                b.formats.push((ifmt, c.replace("\\", "\\")));
+            }
+            b.xfs = vec![0, ifmt];
+            let mut sh = xlsw::XlsSheet::new("S");
+            let mut put = |r: u16, c: u16, cv: xlsw::CellV| {
+                let mut cell = xlsw::XlsCell::new(r, c, cv);
+                cell.xf = 1;
+                sh.cells.push(cell);
+            };
+            put(0, 0, xlsw::CellV::Number(v));
+            cells.push(("number", 0, 0, v));
+            put(0, 1, xlsw::CellV::Rk(xlsw::rk_int(day, false)));
+            cells.push(("rk", 0, 1, day as f64));
+            put(0, 2, xlsw::CellV::MulRk(vec![(1, xlsw::rk_int(centi, true)), (1, xlsw::rk_int(day, false))]));
+            cells.push(("mulrk", 0, 2, centi as f64 / 100.0));
+            cells.push(("mulrk", 0, 3, day as f64));
+            put(1, 0, xlsw::CellV::Formula { rgce: xlsw::rgce_int(1), cached: xlsw::Cached::Num(v) });
+            cells.push(("formula", 1, 0, v));
+            put(1, 1, xlsw::CellV::Number(v));
+            cells.push(("number_after_formula", 1, 1, v));
+            b.sheets.push(sh);
+            b.to_bytes_plain(&mut Rng::new(7))
+        }
+        "xlsb" => {
+            let mut b = xlsbw::XlsbBook::new();
+            b.date1904 = is_1904;
+            if let Some(c) = custom {
+                b.fmts.push((ifmt, c.replace("\\", "\\")));
+            }
+            b.xfs = Some(vec![0, ifmt]);
+            let mut sh = xlsbw::XlsbSheet::new("S");
+            sh.set(0, 0, xlsbw::BVal::real(v)).style = 1;
+            cells.push(("real", 0, 0, v));
+            sh.set(0, 1, xlsbw::BVal::rk_int(day, false)).style = 1;
+            cells.push(("rk", 0, 1, day as f64));
+            sh.set(0, 2, xlsbw::BVal::rk_int(centi, true)).style = 1;
+            cells.push(("rk100", 0, 2, centi as f64 / 100.0));
+            {
+                let c = sh.set(1, 0, xlsbw::BVal::real(v));
+                c.style = 1;
+                c.fmla = Some(xlsbw::Fmla::trivial());
+            }
+            cells.push(("fmlanum", 1, 0, v));
+            sh.set(1, 1, xlsbw::BVal::real(v)).style = 1;
+            cells.push(("real_after_fmla", 1, 1, v));
+            b.sheets.push(sh);
+            b.to_bytes()
+        }
+        _ => {
+            let mut b = xlsxw::XlsxBook::new();
+            let spelling = if is_1904 { XLSX_1904_SPELLINGS[sp % 6] } else { XLSX_1900_SPELLINGS[sp % 6] };
+            b.date1904 = if spelling == "omit" { None } else { Some(is_1904) };
+            if let Some(c) = custom {
+                b.num_fmts.push((ifmt as u32, c.replace("\\", "\\")));
+            }
+            b.cell_xfs = vec![0, ifmt as u32];
+            let mut sh = xlsxw::XlsxSheet::new("S");
+            sh.set(0, 0, xlsxw::XCell::num(&format!("{v}")).with_style(1));
+            cells.push(("num", 0, 0, v));
+            sh.set(0, 1, xlsxw::XCell::num(&format!("{day}")).with_style(1));
+            cells.push(("int", 0, 1, day as f64));
+            sh.set(1, 0, xlsxw::XCell::num(&format!("{v}")).with_style(1).with_formula("1+1"));
+            cells.push(("formula", 1, 0, v));
+            sh.set(1, 1, xlsxw::XCell::num(&format!("{v}")).with_style(1));
+            cells.push(("num_after_formula", 1, 1, v));
+            b.sheets.push(sh);
+            let built = b.build(&xlsxw::Layout::plain());
+            if spelling == "omit" {
+                built.bytes
+            } else {
+                // re-spell the attribute value (the serialiser always escapes, so patch the part's text)
+                let mut parts = built.parts.clone();
+                let mut patched = 0;
+                for (name, body) in parts.iter_mut() {
+                    if name.to_ascii_lowercase() == "xl/workbook.xml" {
+                        let t = String::from_utf8(body.clone()).expect("utf8 workbook part");
+                        let a = t.find("date1904=\"").expect("date1904 attribute") + 10;
+                        let e = a + t[a..].find('"').unwrap();
+                        *body = format!("{}{}{}", &t[..a], spelling, &t[e..]).into_bytes();
+                        patched += 1;
+                    }
+                }
+                assert_eq!(patched, 1, "workbook part");
+                xlsxw::zip_parts(&parts, xlsxw::Compression::Stored, &mut Rng::new(7))
+            }
+        }
+    };
+    let r: Result<Result<Vec<Data>, String>, String> = guarded(|| {
+        let c = Cursor::new(bytes);
+        let range = match fmt {
+            "xls" => Xls::new(c).map_err(|e| format!("{e:?}"))?.worksheet_range("S").map_err(|e| format!("{e:?}"))?,
+            "xlsb" => Xlsb::new(c).map_err(|e| format!("{e:?}"))?.worksheet_range("S").map_err(|e| format!("{e:?}"))?,
+            _ => Xlsx::new(c).map_err(|e| format!("{e:?}"))?.worksheet_range("S").map_err(|e| format!("{e:?}"))?,
+        };
+        Ok(cells.iter().map(|(_, r, c, _)| range.get_value((*r, *c)).cloned().unwrap_or(Data::Empty)).collect())
+    });
+    loc.count(&format!("book.{fmt}.{}", p[2]));
+    let got = match r {
+        Err(pn) => {
+            loc.evaluations += 1;
+            loc.fail("impl_vs_spec", "panic:book", desc, &format!("panic: {}", &pn[..pn.len().min(160)]), "", "the workbook reads");
+            return;
+        }
+        Ok(Err(e)) => {
+            loc.evaluations += 1;
+            loc.fail("impl_vs_spec", "book_does_not_open", desc, &e, "", "the workbook reads");
+            return;
+        }
+        Ok(Ok(g)) => g,
+    };
+    let fmt4 = |a: &Option<NaiveDateTime>, b: &Option<NaiveDate>, c: &Option<NaiveTime>, d: &Option<chrono::Duration>| {
+        format!("dt={} date={} time={} dur={}", show_dt(a), opt(b, show_date), opt(c, show_time), show_dur(d))
+    };
+    for (i, (label, row, col, serial)) in cells.iter().enumerate() {
+        loc.evaluations += 1;
+        loc.count(&format!("book.cell.{fmt}.{label}"));
+        let input = format!("{desc} [{label} cell ({row},{col}) serial {serial:?}]");
+        let model = drv.ask(&format!("cell {}", cell_wire("dt", *serial, 0, td, is_1904)));
+        let cell = &got[i];
+        let edt = match cell {
+            Data::DateTime(e) => *e,
+            other => {
+                loc.fail("impl_vs_spec", &format!("book_{label}_not_a_datetime_cell"), &input, &format!("{other:?}"), &model, "Data::DateTime");
+                continue;
+            }
+        };
+        if edt.as_f64().to_bits() != serial.to_bits() || edt.is_duration() != td {
+            loc.fail("impl_vs_spec", &format!("book_{label}_wrong_cell"), &input, &format!("{edt:?}"), &model, &format!("serial {serial:?} duration={td}"));
+            continue;
+        }
+        let four = guarded(|| (cell.as_datetime(), cell.as_date(), cell.as_time(), cell.as_duration()));
+        let imp_s = match &four {
+            Ok((a, b, c, d)) => fmt4(a, b, c, d),
+            Err(pn) => format!("panic: {}", &pn[..pn.len().min(120)]),
+        };
+        let verdict: Option<(String, String)> = match &four {
+            Err(_) => Some(("panic".into(), "no panic".into())),
+            Ok((a, b, c, d)) => {
+                if let Some(x) = judge_dt(*serial, is_1904, &Ok(*a)) {
+                    Some(x)
+                } else if *b != a.map(|x| x.date()) || *c != a.map(|x| x.time()) {
+                    Some(("date_time_not_components".into(), "as_date/as_time = components of as_datetime".into()))
+                } else {
+                    judge_dur(*serial, &Ok(*d))
+                }
+            }
+        };
+        if matches!(&four, Ok((Some(_), _, _, _))) {
+            loc.hashes.push(fnv64(input.as_bytes()));
+        }
+        if let Some((sig, exp)) = &verdict {
+            loc.fail("impl_vs_spec", &format!("book_{label}_{sig}"), &input, &imp_s, &model, exp);
+        }
+        if imp_s != model {
+            let sig = verdict.as_ref().map(|x| format!("book_{label}_{}", x.0)).unwrap_or_else(|| format!("book_{label}"));
+            loc.fail("impl_vs_model", &sig, &input, &imp_s, &model, "");
+        } else if let Some((sig, exp)) = &verdict {
+            loc.fail("model_vs_spec", &format!("book_{label}_{sig}"), &input, &imp_s, &model, exp);
+        }
+    }
+}
+
+fn gen_book(rng: &mut Rng) -> String {
+    let fmt = *rng.pick(&["xls", "xls", "xlsb", "xlsx", "xlsx"]);
+    let sys = if rng.chance(3, 5) { "1904" } else { "1900" };
+    let (day, k) = gen_base(rng);
+    let day = day.clamp(-100, 2_958_465);
+    let v = if rng.chance(1, 4) { day as f64 } else { day as f64 + k as f64 / 86_400_000.0 };
+    format!("book {fmt} {sys} {} {} {}", rng.below(6), rng.pick(&BOOK_FORMATS), bits(v))
+}
+
+fn book_corpus() -> Vec<String> {
+    let mut c = vec![];
+    for fmt in ["xls", "xlsb", "xlsx"] {
+        for sys in ["1900", "1904"] {
+            for sp in 0..(if fmt == "xlsx" { 6 } else { 1 }) {
+                for fk in BOOK_FORMATS {
+                    c.push(format!("book {fmt} {sys} {sp} {fk} {}", bits(25569.75)));
+                }
+            }
+            c.push(format!("book {fmt} {sys} 0 datetime {}", bits(0.0)));
+            c.push(format!("book {fmt} {sys} 1 date {}", bits(59.5)));
+        }
+    }
+    c
+}
+
 // ---------------------------------------------------------------------------------------------
 // replay / corpus
 // ---------------------------------------------------------------------------------------------
@@ -1479,6 +1707,7 @@ fn run_input(inp: &str, drv: &mut Driver, loc: &mut Local) {
         "mono" => check_monotone(&[(unbits(p[2]), p[1] == "1904"), (unbits(p[3]), p[1] == "1904")], loc),
         "cell" => check_cell(inp, drv, loc),
         "helper" => check_helper(inp, drv, loc),
+        "book" => check_book(&p[..6].join(" "), drv, loc),
         "iso" => check_iso(&p[..9].join(" "), drv, loc),
         x => panic!("bad replay input {x}"),
     }
@@ -1583,6 +1812,11 @@ fn main() {
          change of the process history (opening in-memory 1904 / 1900 / attribute-less xlsx, xls, xlsb workbooks with the real readers, \
          scripted then random), alternately on the main and on a fresh thread, and a slice of serials ascending / descending / shuffled; \
          every result is compared with the model, which knows nothing of other workbooks; a failure's replay input carries the exact history. \
+         (6) workbook stage: in-memory xls / xlsb / xlsx files in either date system (xlsx: every legal spelling of the date1904 \
+         attribute incl. character references) whose sheet holds a serial in a date / date-time / [h]:mm:ss / custom-date styled cell of \
+         every numeric record kind (xls NUMBER, RK, MULRK, FORMULA numeric result; xlsb BrtCellReal, BrtCellRk, BrtFmlaNum; xlsx <v> with \
+         and without <f>), read with the real readers: the cell must be a DateTime cell holding its serial and convert in the workbook's \
+         system (model and calendar oracle as for cells). \
          non-trivial = a conversion that yields a date-time or duration; distinct by (kind, system, f64 bits / day / description)",
     );
     rep.notes.push(
@@ -1604,6 +1838,7 @@ fn main() {
     let threads: usize = if args.thorough() { 16 } else { 4 };
     let n_bases = args.count(200_000, 20_000_000);
     let n_cells = if args.thorough() { 1_000_000 } else { 30_000 }.min(n_bases.max(1000));
+    let n_books: u64 = if args.thorough() { 100_000 } else { 2_000 }.min(n_bases.max(400));
     let n_iso = if args.thorough() { 1_000_000 } else { 30_000 }.min(n_bases.max(1000));
 
     // corpus + specials, single-threaded first
@@ -1640,6 +1875,9 @@ fn main() {
             check_helper(&format!("helper int i{n} dt 1900"), &mut drv, &mut loc);
         }
         loc.add("boundary_cells", ncell);
+        for b in book_corpus() {
+            check_book(&b, &mut drv, &mut loc);
+        }
         order_phase(&mut drv, &mut loc, &mut Rng::new(args.seed ^ 0x0bde));
         loc.add("driver_requests", drv.requests);
         merge(&mut rep, loc, &mut all_hashes);
@@ -1705,6 +1943,10 @@ fn main() {
                     for _ in 0..n_cells / threads as u64 {
                         let c = gen_helper(&mut rng);
                         check_helper(&c, &mut drv, &mut loc);
+                    }
+                    for _ in 0..n_books / threads as u64 {
+                        let c = gen_book(&mut rng);
+                        check_book(&c, &mut drv, &mut loc);
                     }
                     for _ in 0..n_iso / threads as u64 {
                         let c = gen_iso(&mut rng);
